@@ -50,10 +50,13 @@ func NewDecimal(i int64, exponent int) (Decimal, error) {
 		intPart = i / int64(math.Pow10(-exponent))
 		fracPart = i % int64(math.Pow10(-exponent)) * int64(math.Pow10(4+exponent))
 	} else {
+		// The product may wrap around more than once, in which case it can land
+		// on the "right" side of i again: also check that dividing it back
+		// yields i.
 		intPart = i * int64(math.Pow10(exponent))
-		if i > 0 && intPart < i {
+		if i > 0 && (intPart < i || intPart/int64(math.Pow10(exponent)) != i) {
 			return Decimal{}, fmt.Errorf("%w: value %ve%v would overflow", errDecimal, i, exponent)
-		} else if i < 0 && intPart > i {
+		} else if i < 0 && (intPart > i || intPart/int64(math.Pow10(exponent)) != i) {
 			return Decimal{}, fmt.Errorf("%w: value %ve%v would underflow", errDecimal, i, exponent)
 		}
 	}
